@@ -297,3 +297,16 @@ Proof.
   split; [exact Hempty|]. split; [exact Hnd|]. split; [exact Hsort|].
   intros j Hj Hnin l Hl. apply Hmin; auto. discriminate.
 Qed.
+
+Theorem knn_predict_neighbours_isort : forall (top : Z) (k n : nat) (dist : nat -> Z) (ns0 : list nat),
+  k < length ns0 ->
+  (forall j, j < n -> (dist j < top)%Z) ->
+  forall ds ns, knn_scan Z.ltb top k n dist None ns0 = (ds, ns) ->
+  firstn (Nat.min k n) ns = firstn k (isort dist (seq 0 n)) /\
+  firstn (Nat.min k n) ds = map dist (firstn k (isort dist (seq 0 n))).
+Proof.
+  intros top k n dist ns0 Hk Htop ds ns Hscan.
+  destruct (knn_scan_spec top k n dist None ns0 Hk ltac:(intros; apply Htop; assumption) ds ns Hscan)
+    as (_ & _ & _ & _ & _ & _ & _ & Hn & Hd).
+  cbn [ncands] in *. unfold knearest in *. rewrite cands_none in *. auto.
+Qed.
